@@ -1,7 +1,7 @@
 """C06 — union/intersection/difference/complement are exact set operations (DESIGN.md §5 C06)."""
 import vcheck
 
-MODULES = ["BeffVerif.Props.C06"]
+MODULES = ["BeffVerif.Props.C06", "BeffVerif.Props.C06Sem"]
 AUDIT = "BeffVerif/Audit/C06.lean"
 
 def proof_part(chk):
@@ -13,7 +13,7 @@ def proof_part(chk):
     ]
     chk.open_obligations += [
         "bdd_ops_total_of_ordered (fuel adequacy for ordered diagrams) — not proved; every correspondence script is checked to return `some`",
-        "SemType/ProperSubtype-level *_mem theorems (semtype.rs:23-254, subtype.rs:245-634) — model and proof pending; covered by correspondence only",
+        "the SemType / ProperSubtype layer is proved exact in Props/C06Sem.lean for the tags of the C05 fragment (boolean, number, string, null, optional, void/undefined, mapping, list); format / template literal subtypes (sub_vec_* with a non-trivial subtype relation), typed arrays, Map and Set are not modelled",
     ]
     return ok and aok, (out if not ok else txt), bad, banned
 
